@@ -27,8 +27,8 @@ EDGE_ONLY_FILTERS = ("none", "accept", "reject", "tagged_edge", "not_directed")
 
 def floors(ctx):
     if ctx.tier == "quick":
-        return {"rows_single_link": 500, "evaluations": 5000, "corollary_pairs": 500}
-    return {"rows_single_link": 500, "evaluations": 50000, "corollary_pairs": 5000}
+        return {"rows_single_link": 500, "evaluations": 5000, "corollary_pairs": 500, "equal_but_distinct_end_cases": 500}
+    return {"rows_single_link": 500, "evaluations": 50000, "corollary_pairs": 5000, "equal_but_distinct_end_cases": 500}
 
 
 def _pos(link, v):
@@ -173,10 +173,26 @@ def single_and_double_specs():
                    "edges": [[c1, p1[0], p1[1], 0], [c2, p2[0], p2[1], 1]], "uni": None}
 
 
+def twin_specs():
+    """Distinct but EQUAL vertices (value __eq__) at the two ends of a link: 'the opposite end' is an identity notion."""
+    for c in zoo.EDGE_CLASSES:
+        for (i, j) in ((0, 1), (1, 0)):
+            yield {"verts": ["EqVertex", "EqVertex", "Vertex"], "edges": [[c, i, j, 0], [c, 2, 0, 1], [c, 1, 2, 2]], "uni": None}
+
+
 def run(ctx):
     rng = random.Random(ctx.seed * 1000003 + ctx.shard)
     rows = set()
     filters = list(zoo.NB_FILTERS)
+    if ctx.shard == 0:
+        for spec in twin_specs():
+            g = graphs.build(spec)
+            for vi in range(3):
+                for dname in DIRS:
+                    for uname in UNKS:
+                        for fname in ("none", "tagged_edge", "reject"):
+                            check_vertex(ctx, g, vi, dname, uname, fname, cache=False)
+                            ctx.count("equal_but_distinct_end_cases")
     # ---- part 1: exhaustive one-/two-link table ---------------------------
     for n, spec in enumerate(single_and_double_specs()):
         if n % ctx.nshards != ctx.shard:
